@@ -29,11 +29,11 @@ try:
     patch = os.path.join(out, f"{which}.patch.diff")
     demo_src = os.path.join(out, f"{which}.demo.rs")
     place = meta["demo_place"]
-    place = re.sub(r"^/tmp/seed[2345]?/C\d+/wt/", "", place)
+    place = re.sub(r"^/tmp/seed[23456]?/C\d+/wt/", "", place)
     cmd = meta["demo_cmd"]
     cmd = re.sub(r"export\s+CARGO_TARGET_DIR=\S+\s*", "", cmd)
     cmd = re.sub(r"CARGO_TARGET_DIR=\S+\s*", "", cmd)
-    cmd = re.sub(r"cd\s+/tmp/seed[2345]?/C\d+/wt\s*(&&|;)\s*", "", cmd)
+    cmd = re.sub(r"cd\s+/tmp/seed[23456]?/C\d+/wt\s*(&&|;)\s*", "", cmd)
     cmd = cmd.replace("export ;", "").strip()
     if "--offline" not in cmd:
         cmd = cmd.replace("cargo run", "cargo run --offline").replace("cargo test", "cargo test --offline")
